@@ -177,8 +177,9 @@ AdvAddDisc == Move("AddDisc") /\ Len(cur.discs) < MaxDiscs /\ \E e \in Pool :
                  /\ UNCHANGED ledger
 AdvDropDisc == Move("DropDisc") /\ \E i \in DOMAIN cur.discs :
                  Rewrite(ReMsg(cur.jwt, DropAt(cur.discs, i), cur.kb), [a |-> "DropDisc", d |-> Desc(cur.discs[i])]) /\ UNCHANGED ledger
-AdvDupDisc == Move("DupDisc") /\ Len(cur.discs) < MaxDiscs /\ \E i \in DOMAIN cur.discs :
-                 Rewrite(ReMsg(cur.jwt, Append(cur.discs, cur.discs[i]), cur.kb), [a |-> "DupDisc", d |-> Desc(cur.discs[i])]) /\ UNCHANGED ledger
+AdvDupDisc == Move("DupDisc") /\ Len(cur.discs) < MaxDiscs /\ \E i \in DOMAIN cur.discs, pos \in {"front", "end"} :
+                 Rewrite(ReMsg(cur.jwt, IF pos = "end" THEN Append(cur.discs, cur.discs[i]) ELSE <<cur.discs[i]>> \o cur.discs, cur.kb),
+                         [a |-> "DupDisc", d |-> Desc(cur.discs[i]), pos |-> pos]) /\ UNCHANGED ledger
 AdvSwapDiscs == Move("SwapDiscs") /\ \E i \in 1..(Len(cur.discs) - 1) :
                  Rewrite(ReMsg(cur.jwt, [cur.discs EXCEPT ![i] = cur.discs[i+1], ![i+1] = cur.discs[i]], cur.kb), [a |-> "SwapDiscs", d |-> Desc(cur.discs[i]), d2 |-> Desc(cur.discs[i+1])]) /\ UNCHANGED ledger
 \* key binding
@@ -307,11 +308,10 @@ Inv_C03 == \A i \in DOMAIN obs : LET o == obs[i] IN Accepted(o) =>
                LET pres == SeqToSet(o.m.discs)
                    gen == {d \in pres : \E e \in creds[c].discs : e.id = d.id}
                IN o.r.claims = Unpack(Without(creds[c].jwt.pl, {"_sd_alg"}), DMap({e \in creds[c].discs : \E d \in gen : d.id = e.id}))
-\* C04: acceptance with (aud, nonce) implies a KB-JWT made by Present with the confirmed holder key for exactly this
-\* message, audience and nonce
+\* C04: acceptance with (aud, nonce) implies a KB-JWT signed with the confirmed holder key (by Present, or by the holder
+\* acting as adversary: KBResignKeys may contain the holder key) for exactly this message, audience and nonce
 Inv_C04 == \A i \in DOMAIN obs : LET o == obs[i] IN (Accepted(o) /\ o.va.aud # NONE) =>
              /\ o.m.kb # NoKB
-             /\ o.m.kb.sig = "kbsig"
              /\ \E c \in CredOf(o.m.jwt.id) : creds[c].hk # "" /\ Signed(creds[c].hk, HdrAlg(o.m.kb), o.m.kb.id) \in ledger
              /\ o.m.kb.pl.f["aud"] = o.va.aud /\ o.m.kb.pl.f["nonce"] = o.va.nonce
              /\ o.m.kb.pl.f["sd_hash"] = JStr(SdHashSym(o.m.jwt, o.m.discs))
